@@ -36,13 +36,13 @@ type c08Vote struct {
 	variant int
 }
 
-func c08Tally(permute bool, votes []c08Vote) (applied []string, env *keeper.VEnv) {
+func c08Tally(permute bool, votes []c08Vote, nv int) (applied []string, env *keeper.VEnv) {
 	env = keeper.NewVEnv(100)
 	env.SetLatestCompassID(c08Chain, "compass-1")
-	for _, v := range c08Vals {
+	for _, v := range c08Vals[:nv] {
 		env.Staking.Add(v, stakingtypes.Bonded, false, sdkmath.NewInt(10), 10)
 	}
-	env.Staking.TotalPower = sdkmath.NewInt(30)
+	env.Staking.TotalPower = sdkmath.NewInt(int64(10 * nv))
 	srv := keeper.NewMsgServerImpl(env.K)
 	for _, vt := range votes {
 		cctx, commit := env.Ctx.CacheContext()
@@ -62,16 +62,20 @@ func c08Tally(permute bool, votes []c08Vote) (applied []string, env *keeper.VEnv
 
 func VerifC08_Tally() {
 	// n votes (validators in turn), each arbitrary in nonce and variant
-	n, nonces := 4, 2
+	// quick: 2 validators (both needed for >66%), 4 votes, so that two consecutive nonces can be ready in one block
+	n, nonces, nv := 4, 2, 2
 	if sym.Tier() == "thorough" {
-		n, nonces = 6, 3
+		n, nonces, nv = 6, 3, 3
 	}
 	var votes []c08Vote
 	for i := 0; i < n; i++ {
-		votes = append(votes, c08Vote{v: i % 3, nonce: uint64(1 + sym.Choice("nonce", nonces)), variant: sym.Choice("variant", 2)})
+		votes = append(votes, c08Vote{v: i % nv, nonce: uint64(1 + sym.Choice("nonce", nonces)), variant: sym.Choice("variant", 2)})
 	}
-	ref, e0 := c08Tally(false, votes)
-	got, e1 := c08Tally(true, votes)
+	ref, e0 := c08Tally(false, votes, nv)
+	got, e1 := c08Tally(true, votes, nv)
+	if len(ref) > 1 {
+		sym.Reach("two-effects-in-one-block")
+	}
 	sym.Reach("tallied")
 	if len(ref) > 0 {
 		sym.Reach("effects-applied")
